@@ -550,7 +550,7 @@ func checkC04(r *core.Run) {
 		r.Check(ok && chkOK, "R-C04-scripts", fmt.Sprintf("verify-args/%d", i), p.Pos(c.Pos()), "script, amount of the spent output, input index, transaction and block flags passed", "script verification is not given the spent output's script/amount, the input index, the transaction and the block's flags")
 	}
 	r.Check(len(vts) >= 1, "R-C04-scripts", "verify-called", p.Pos(ct.Pos()), "script verification present", "no script verification in the block-connection function")
-	g("R-C04-scripts", "failure-counter", "a non-zero script failure count is rejected", an.MatchCmpConst(0, token.GTR, "var:ver_err_cnt"))
+	g("R-C04-scripts", "failure-counter", "a non-zero script failure count is rejected", c04FailCounter(ct))
 	// the counter test is preceded by wg.Wait on every path
 	{
 		var waitBlocks []*ssa.BasicBlock
@@ -563,7 +563,7 @@ func checkC04(r *core.Run) {
 			if !ok {
 				continue
 			}
-			if m, _ := an.MatchCmpConst(0, token.GTR, "var:ver_err_cnt")(iff); m {
+			if m, _ := c04FailCounter(ct)(iff); m {
 				for _, wb := range waitBlocks {
 					if wb.Dominates(b) {
 						okW = true
@@ -992,4 +992,63 @@ func c04SigopTable(r *core.Run, p *core.Program) {
 		}
 	}
 	r.Check(len(bad) == 0, rule, key, p.Pos(fn.Pos()), fmt.Sprintf("%d (opcode, previous opcode, mode) cases evaluated", cases), strings.Join(bad, "; "))
+}
+
+// c04FailCounter matches the test "failure counter > 0" (or != 0): the counter is the variable that the
+// script-verification goroutines of fn increment with an atomic add - identified by that use, not by name.
+func c04FailCounter(fn *ssa.Function) func(*ssa.If) (bool, bool) {
+	counters := map[ssa.Value]bool{}
+	for _, f := range an.WithClosures(fn) {
+		for _, c := range an.Calls(f, false) {
+			if n := an.CallName(c); strings.HasPrefix(n, "sync/atomic.AddUint32") || strings.HasPrefix(n, "sync/atomic.AddInt32") || strings.HasPrefix(n, "sync/atomic.AddUint64") {
+				a := c.Common().Args[0]
+				counters[a] = true
+				// captured by a closure: the cell in the enclosing function
+				if ld, ok := a.(*ssa.UnOp); ok {
+					a = ld.X
+				}
+				if fv, ok := a.(*ssa.FreeVar); ok {
+					for i, q := range f.FreeVars {
+						if q == fv && f.Parent() != nil {
+							an.Instrs(f.Parent(), func(ins ssa.Instruction) {
+								if mc, ok := ins.(*ssa.MakeClosure); ok && mc.Fn == ssa.Value(f) && i < len(mc.Bindings) {
+									counters[mc.Bindings[i]] = true
+								}
+							})
+						}
+					}
+				}
+			}
+		}
+	}
+	return func(iff *ssa.If) (bool, bool) {
+		x, y, rel, ok := an.CondCmp(iff.Cond)
+		if !ok {
+			return false, false
+		}
+		k, isC := an.ConstOf(y)
+		if !isC || k.Sign() != 0 {
+			return false, false
+		}
+		// x: a load (plain or atomic) of the counter cell
+		var cell ssa.Value
+		switch v := c17StripConv(x).(type) {
+		case *ssa.UnOp:
+			cell = v.X
+		case *ssa.Call:
+			if strings.HasPrefix(an.CallName(v), "sync/atomic.Load") {
+				cell = v.Call.Args[0]
+			}
+		}
+		if cell == nil || !counters[cell] {
+			return false, false
+		}
+		switch rel {
+		case token.GTR, token.NEQ:
+			return true, true
+		case token.LEQ, token.EQL:
+			return true, false
+		}
+		return false, false
+	}
 }
